@@ -234,8 +234,7 @@ theorem C09_is_connected_reorder (hw : h.WF) (hr : Reorder h h') : isConnected (
       · intro hall m hm
         have h3 : a ∈ comp (view h) a' := (comp_perm hp a').mem_iff.1 (hall a (hp.nodes.mem_iff.2 ha))
         have h4 := (comp_perm hp a').mem_iff.1 (hall m (hp.nodes.mem_iff.2 hm))
-        exact (comp_class hv h3 m).2 ((comp_class hv h3 m).1 ((comp_class hv h3 m).2 h4)) |> fun _ =>
-          (comp_class hv h3 m).2 h4
+        exact (comp_class hv h3 m).2 h4
       · intro hall m hm
         have hm' : m ∈ (view h).nodes := hp.nodes.mem_iff.1 hm
         have h3 : a' ∈ comp (view h) a := hall a' ha'
